@@ -10,6 +10,8 @@
 import PyGqlModel.Lemmas.PrintTokens
 import PyGqlModel.Lemmas.PrintLexFloat
 import PyGqlModel.Lemmas.PrintTokensDir
+import PyGqlModel.Lemmas.PrintLayExec
+import PyGqlModel.Lemmas.PrintMatchExec
 import PyGqlModel.Props.C01_parse
 namespace PyGql.Props.C03
 open PyGql PyGql.Ast PyGql.Parse PyGql.Spec PyGql.Print PyGql.PrintLex PyGql.PrintMatch PyGql.PrintTokens PyGql.Lex
@@ -181,6 +183,63 @@ def PrintStableStatement : Prop :=
     fl.noLocation = true → IndentOK c → lexAll x = .ok toks → parseDocument fl toks = .ok d →
     ∃ toks' d', lexAll (printDocument c d) = .ok toks' ∧ parseDocument fl toks' = .ok d' ∧
       printDocument c d' = printDocument c d
+
+/-! ### executable documents IN FULL -/
+
+/-- `print_tokens_executable`: for every executable document (operations in long and short form, variable definitions
+    with defaults and directives, fields with aliases / arguments / directives, fragment spreads, inline fragments,
+    selection sets nested to ANY depth through `_block` / `_indent`, fragment definitions with fragment variables) whose
+    leaves are lexemes of their class by the specification recognisers (`okExecDefinitions`), and every indentation
+    string over {space, tab}: the printed document lexes to SOF, exactly the canonical yield of its definitions, EOF.
+    Block strings (any depth) enter through the string-level hypothesis `BlockLay`. -/
+theorem print_tokens_executable (c : Cfg) (hind : IndentOK c) (d : Document)
+    (hok : okExecDefinitions c.indent d.definitions) :
+    ∃ toks, lexAll (printDocument c d) = .ok (sofTok :: toks ++ [eofTok (printDocument c d).length]) ∧
+      classes toks = Item.yieldAll (d.definitions.map definitionV) :=
+  lexAll_of_lexesTo (lexesTo_execDocument c hind d hok)
+
+/-- `print_parse_executable`: `parse(print(d), no_location=True) = d` for every such well-formed, location-free
+    executable document, every indentation setting and every flag combination with `no_location`
+    (uses `parse_complete_document` of C01). -/
+theorem print_parse_executable (fl : Flags) (hnl : fl.noLocation = true) (c : Cfg) (hind : IndentOK c) (d : Document)
+    (hok : okExecDefinitions c.indent d.definitions) (hn : noLocExecDocument d = true) (hw : wfDocument fl d = true) :
+    ∃ toks, lexAll (printDocument c d) = .ok toks ∧ parseDocument fl toks = .ok d := by
+  obtain ⟨toks, h1, h2⟩ := print_tokens_executable c hind d hok
+  refine ⟨_, h1, ?_⟩
+  apply C01.parse_complete_document fl _ d hw
+  exact matches_execDocument fl hnl d hn sofTok (eofTok _) cls_sof (cls_eof _) toks h2
+
+/-- `print_stable_executable` -/
+theorem print_stable_executable (fl : Flags) (hnl : fl.noLocation = true) (c : Cfg) (hind : IndentOK c) (d : Document)
+    (hok : okExecDefinitions c.indent d.definitions) (hn : noLocExecDocument d = true) (hw : wfDocument fl d = true) :
+    ∃ toks d', lexAll (printDocument c d) = .ok toks ∧ parseDocument fl toks = .ok d' ∧
+      printDocument c d' = printDocument c d := by
+  obtain ⟨toks, h1, h2⟩ := print_parse_executable fl hnl c hind d hok hn hw
+  exact ⟨toks, d, h1, h2, rfl⟩
+
+/-- non-vacuity: `query Q($v: Int = 1 @d) @live { a: b(x: "s") { ...F ... on T @e { c } } }  fragment F on T { d }  { e }` -/
+private def nm (s : String) : Name := ⟨textOfString s, none⟩
+private def exDoc : Document :=
+  ⟨[.operation ⟨K.query, some (nm "Q"),
+      [⟨⟨nm "v", none⟩, .named ⟨nm "Int", none⟩, some (.int [49] none), [⟨nm "d", [], none⟩], none⟩],
+      [⟨nm "live", [], none⟩],
+      .mk [.field (some (nm "a")) (nm "b") [⟨nm "x", .string ⟨[115], false, none⟩, none⟩] []
+            (some (.mk [.fragmentSpread (nm "F") [] none,
+                        .inlineFragment (some ⟨nm "T", none⟩) [⟨nm "e", [], none⟩] (.mk [.field none (nm "c") [] [] none none] none) none] none)) none] none,
+      none⟩,
+    .fragment ⟨nm "F", [], ⟨nm "T", none⟩, [], .mk [.field none (nm "d") [] [] none none] none, none⟩,
+    .operation ⟨K.query, none, [], [], .mk [.field none (nm "e") [] [] none none] none, none⟩], none⟩
+
+example : ∃ toks, lexAll (printDocument (mkCfg (.str [32, 9])) exDoc) = .ok toks ∧
+    parseDocument { noLocation := true } toks = .ok exDoc :=
+  print_parse_executable _ rfl _ (by intro ch hc; simp [mkCfg] at hc; omega) exDoc
+    (by
+      simp only [exDoc, okExecDefinitions, okExecDefinition, okOperation, okFragment, okVarDefs, okVarDef, okDirectives,
+        okDirective, okArguments, okArgument, okSelectionSet, okSelections, okSelection, okOptSelectionSet, okValue,
+        lexOkType, nm]
+      repeat' apply And.intro
+      all_goals first | decide | simp)
+    (by decide) (by decide)
 
 /-! ### R4: the refutation witness of `PrintParseStatement` (also the replay on the implementation) -/
 
